@@ -349,8 +349,11 @@ func (f *File) startSegmentIfNeeded(b Box, boxStartPos uint64) {
 			}
 		}
 	case f.tfra != nil:
-		if boxStartPos == uint64(f.tfra.Entries[segIdx].MoofOffset) {
+		if segIdx < len(f.tfra.Entries) && boxStartPos == uint64(f.tfra.Entries[segIdx].MoofOffset) {
 			segStart = true
+		}
+		if segIdx == 0 {
+			segStart = true // Boxes before the first tfra entry cannot belong to an earlier segment
 		}
 	case (f.fileDecFlags & DecStartOnMoof) != 0:
 		segStart = true
